@@ -389,7 +389,8 @@ func (c *Ctx) newickTables(wt, wn, pi, sc, si, ii *FuncInfo) {
 	}
 	k1, k2 := strings.Join(sortedKeys(plain), "")+"|"+strings.Join(sortedKeys(cond), ""), strings.Join(sortedKeys(iplain), "")+"|"+strings.Join(sortedKeys(icond), "")
 	if len(plain) < 5 {
-		c.Undecided("TABLE", "newick/token-runes", sc.Decl.Pos(), "fewer than 5 dedicated token runes found in Scanner.Scan")
+		c.Undecided("TABLE", "newick/token-runes", sc.Decl.Pos(), "fewer than 5 dedicated token runes found in Scanner.Scan: the writer's delimiters cannot be compared with the lexer's table")
+		return // what follows compares with that table: without it every delimiter would read as unknown
 	} else {
 		c.Check(k1 == k2, "TABLE", "newick/token-runes=isIdent-rejects", sc.Decl.Pos(), "dedicated token runes "+k1+" are exactly the runes isIdent rejects", "Scanner.Scan gives dedicated tokens to "+k1+" but isIdent rejects "+k2+" (plain|only-when-';'-matters): a rune in one set only is either swallowed into identifiers or never tokenised").Clause = clause
 	}
